@@ -280,6 +280,7 @@ impl<'tcx> Cx<'tcx> {
                         let p = self.path(uv.def);
                         // a promoted `&Enum::Variant`: name the variant the promoted body builds
                         let mut variant: Option<String> = None;
+                        let mut pstr: Option<String> = None;
                         if let Some(pi) = uv.promoted {
                             if uv.def.is_local() {
                                 let proms = tcx.promoted_mir(uv.def);
@@ -303,12 +304,37 @@ impl<'tcx> Cx<'tcx> {
                                     if n != 1 {
                                         variant = None;
                                     }
+                                    // a promoted `&"text"` (the right-hand side of `segment == ".."`): the string it holds
+                                    let mut strs: Vec<String> = vec![];
+                                    for bb in pb.basic_blocks.iter() {
+                                        for st in bb.statements.iter() {
+                                            if let StatementKind::Assign(bx) = &st.kind {
+                                                if let Rvalue::Use(Operand::Constant(kc), ..) = &bx.1 {
+                                                    if let ty::Ref(_, inner, _) = kc.const_.ty().kind() {
+                                                        if inner.is_str() {
+                                                            if let Ok(cv) = kc.const_.eval(tcx, tenv, kc.span) {
+                                                                if let ConstValue::Slice { .. } = cv {
+                                                                    if let Some(bytes) = cv.try_get_slice_bytes_for_diagnostics(tcx) {
+                                                                        strs.push(String::from_utf8_lossy(bytes).to_string());
+                                                                    }
+                                                                }
+                                                            }
+                                                        }
+                                                    }
+                                                }
+                                            }
+                                        }
+                                    }
+                                    if strs.len() == 1 {
+                                        pstr = strs.pop();
+                                    }
                                 }
                             }
                         }
-                        match variant {
-                            Some(v) => { let _ = write!(o, ",{{\"item\":{},\"variant\":{}}}", q(&p), q(&v)); }
-                            None => { let _ = write!(o, ",{{\"item\":{}}}", q(&p)); }
+                        match (variant, pstr) {
+                            (Some(v), _) => { let _ = write!(o, ",{{\"item\":{},\"variant\":{}}}", q(&p), q(&v)); }
+                            (None, Some(ps)) => { let _ = write!(o, ",{{\"item\":{},\"pstr\":{}}}", q(&p), q(&ps)); }
+                            (None, None) => { let _ = write!(o, ",{{\"item\":{}}}", q(&p)); }
                         }
                     }
                     _ => o.push_str(",null"),
